@@ -115,8 +115,10 @@ public:
     }
   }
 
+  // Takes the error by value: it may be owned by the completion operation,
+  // which is destroyed below before the error is forwarded.
   template <typename Error>
-  void set_error(Error&& error) && noexcept {
+  void set_error(Error error) && noexcept {
     auto* const op = op_;
 
     using completion_value_op_t =
@@ -303,9 +305,11 @@ public:
     unifex::set_done(static_cast<Receiver&&>(op->receiver_));
   }
 
+  // Takes the error by value: it may be owned by the completion operation,
+  // which is destroyed below before the error is forwarded.
   template(typename Error)                  //
       (requires receiver<Receiver, Error>)  //
-      void set_error(Error&& error) && noexcept {
+      void set_error(Error error) && noexcept {
     auto* const op = op_;
     unifex::deactivate_union_member(op->completionDoneOp_);
     unifex::set_error(
